@@ -13,8 +13,8 @@ def c08(tier):
         runs.append(H("c01_foreach", "asan", 100, "4,4,4,4", timeout_per_case=40, params=dict(P, maxitems=1500)))
     else:
         for t in TOPOS_THOROUGH:
-            runs.append(H("c01_foreach", "plain", 3000, t, timeout_per_case=15, params=dict(P, maxitems=8000)))
-            runs.append(H("c01_foreach", "asan", 400, t, timeout_per_case=60, params=dict(P, maxitems=3000)))
+            runs.append(H("c01_foreach", "plain", 1500, t, timeout_per_case=15, params=dict(P, maxitems=8000)))
+            runs.append(H("c01_foreach", "asan", 250, t, timeout_per_case=60, params=dict(P, maxitems=3000)))
         for cpus in (2, 4):
             runs.append(H("c01_foreach", "plain", 400, "12,12,8", cpus=cpus, timeout_per_case=60,
                           params=dict(P, oversub=1, maxitems=600)))
